@@ -277,6 +277,8 @@ pub struct RouteNotes {
     pub domain_matched: Option<String>,
     /// no route matched and the fallback was chosen through a nesting prefix that contains a parameter
     pub via_parametric_prefix: bool,
+    /// method miss on a route of a blueprint nested *without* a prefix that has its own fallback
+    pub unprefixed_nested_fallback: bool,
 }
 
 /// 0 = static, 1 = parameter (possibly with literal prefix), 2 = catch-all
@@ -492,5 +494,9 @@ pub fn route_request(spec: &AppSpec, method: &str, path: &str, host: Option<&str
     let sc = matching[0].scope.clone();
     let comp = fallback_from(&sc);
     notes.nested_fallback = comp.is_some() && !sc.is_empty();
+    {
+        let s = find_scope(&sc);
+        notes.unprefixed_nested_fallback = !sc.is_empty() && !s.own_prefix && s.fallback.is_some();
+    }
     (Routed::Fallback { comp, allowed: Some(allowed) }, notes)
 }
